@@ -289,9 +289,8 @@ def expr(draw, env, depth, allow_hybrid=False):
         n = env.fresh("g")
         t = draw(st.sampled_from(WIDE_TYPES))
         init = draw(expr(env, depth - 1, False))
+        # the variable is scoped to the statement-expression (C block scope): it is not visible to later code
         res = ("stmtexpr", [("decl", t, n, init, False)], ("var", n))
-        env.vars[n] = t
-        env.busy.add(n)
         return res
     raise AssertionError(k)
 
@@ -416,6 +415,9 @@ def stmt(draw, env, depth, nest):
         kinds += ["hyb_stmt"]
     if "hyb_stmtexpr" in f and "cond" in f and any(not n.startswith("__") for n in env.vars):
         kinds += ["condarm", "condarm"]
+    if "hyb_inc" in f and "if" in f and nest > 0 and any(
+            not n.startswith("__") and env.vars[n][1] >= 32 and n not in getattr(env, "readonly", ()) for n in env.vars):
+        kinds += ["hybif", "hybif"]
     kinds += ["empty"]
     k = draw(st.sampled_from(kinds))
     hyb = bool(f & {"hyb_inc", "hyb_call", "hyb_stmtexpr"})
@@ -424,7 +426,10 @@ def stmt(draw, env, depth, nest):
     if k == "empty":
         return ("empty",)
     if k == "block":
-        return ("block", draw(stmts(env, depth, nest - 1, 1, 3)))
+        saved = dict(env.vars)
+        inner = draw(stmts(env, depth, nest - 1, 1, 3))
+        env.vars = saved      # C block scope: locals of the nested block are not visible afterwards
+        return ("block", inner)
     if k == "if":
         env.busy = set()
         c = draw(condition(env, depth, allow_hybrid=hyb and "hyb_inc" in f))
@@ -470,6 +475,22 @@ def stmt(draw, env, depth, nest):
     if k == "jump":
         env.busy = set()
         return ("jump", draw(expr(env, depth - 1, False)))
+    if k == "hybif":
+        # if (v++ <cmp> e) { ... } [else { ... }] : the branch must see the old value, the arms the new one
+        env.busy = set()
+        names = [n for n in sorted(env.vars) if not n.startswith("__") and env.vars[n][1] >= 32
+                 and n not in getattr(env, "readonly", ())]
+        v = draw(st.sampled_from(names))
+        env.busy.add(v)
+        c = ("bin", draw(st.sampled_from(["<", ">", "<=", ">=", "==", "!="])),
+             ("post", draw(st.sampled_from(["++", "--"])), ("var", v)), draw(expr(env, 1, False)))
+        env.busy = set()
+        saved = dict(env.vars)
+        th = ("block", draw(stmts(env, depth, nest - 1, 1, 2)))
+        env.vars = dict(saved)
+        el = ("block", draw(stmts(env, depth, nest - 1, 1, 2))) if draw(st.integers(0, 2)) else None
+        env.vars = saved
+        return ("if", c, th, el)
     if k == "condarm":
         # dst = c ? A : ({ v = e; B; })  with arms of different C types (the shape of the shipped saturation macros)
         env.busy = set()
@@ -662,6 +683,10 @@ def normalize(stmts, features, subs=None, stats=None, vartypes=None):
             elif e[1] not in ("<<=", ">>="):
                 t = common(lt, ty(rhs))
                 if "widen_unsigned_from_signed" not in features and _su_widen(ty(rhs), t):
+                    note("excluded:signed->wider-unsigned conversion (cast via signed inserted)")
+                    rhs = ("cast", (True, t[1]), rhs)
+                elif "widen_unsigned_from_signed" not in features and e[1] in ("/=", "%=") and _su_widen(lt, t):
+                    # division is done in the common type: a signed destination would be converted to wider unsigned
                     note("excluded:signed->wider-unsigned conversion (cast via signed inserted)")
                     rhs = ("cast", (True, t[1]), rhs)
             return ("assign", e[1], lhs, rhs)
